@@ -417,7 +417,17 @@ fn operator_conventions(rep: &Report) {
         }
     }
     // outside everything: failed unless the null grid is given
-    for (def, null) in [("gridshift grids=d.datum", false), ("gridshift grids=d.datum, @null", true), ("gridshift grids=@nothere.datum, d.datum", false)] {
+    for (def, null) in [
+        ("gridshift grids=d.datum", false),
+        ("gridshift grids=d.datum, @null", true),
+        ("gridshift grids=@nothere.datum, d.datum", false),
+        // every listed grid optional and missing: the point is outside all (zero) grids
+        ("gridshift grids=@nothere.datum", false),
+        ("gridshift grids=@nothere.datum, @alsomissing.datum", false),
+        ("gridshift grids=@nothere.datum, @null", true),
+        ("gridshift grids=@null", true),
+        ("deformation grids=@nothere.deformation dt=1", false),
+    ] {
         rep.eval(1);
         let Ok(op) = ctx.op(def) else {
             rep.violation("grid list with optional/null entries rejected", json!({"def": def}));
